@@ -4,7 +4,7 @@
    (Frame headers, join payloads and CFList: see the C06 part of Frame/FrameSpecProofs.v.) *)
 From Coq Require Import List NArith ZArith Bool.
 From LW Require Import Base.Outcome Base.Bytes Mac.Commands Mac.Spec Mac.Stream
-     Mac.RegistryProofs Mac.DecProofs Mac.EncProofs Mac.PackProofs.
+     Mac.RegistryProofs Mac.DecProofs Mac.EncProofs Mac.PackProofs Frame.Model Frame.WireSpec Frame.WireSpecProofs.
 From LWGen Require Import RegistryGen.
 Import ListNotations.
 Open Scope N_scope.
@@ -52,6 +52,58 @@ Theorem C06_layout_inverse : forall L vals,
   spec_decode L (spec_encode L vals) = vals.
 Proof. exact spec_decode_encode. Qed.
 Print Assumptions C06_layout_inverse.
+
+(* ---- frame headers, join payloads (layouts in Frame/WireSpec.v) ---- *)
+(* MHDR: all MTypes x Majors encode to the layout; all 256 octets decode to it (RFU ignored) *)
+Theorem C06_mhdr : forall mt mj b, mt < 8 -> mj < 4 -> b < 256 ->
+  mhdr_marshal mt mj = spec_mhdr mt mj /\ [N.land b 3; N.shiftr b 5] = unpack L_MHDR b.
+Proof. intros mt mj b H1 H2 H3. split; [exact (mhdr_is_spec mt mj H1 H2)|exact (mhdr_decode_is_spec b H3)]. Qed.
+Print Assumptions C06_mhdr.
+
+(* FCtrl: every flag combination x FOptsLen 0..15 encodes to the layout; every octet decodes to it *)
+Theorem C06_fctrl : forall c b, foptslen c < 16 -> b < 256 ->
+  fctrl_marshal c = Ok (spec_fctrl c) /\ fctrl_unmarshal b = spec_fctrl_decode b.
+Proof. intros c b H1 H2. split; [exact (fctrl_is_spec c H1)|exact (fctrl_decode_is_spec b H2)]. Qed.
+Print Assumptions C06_fctrl.
+
+Theorem C06_dlsettings : forall optneg rx2 rx1 b, rx2 < 16 -> rx1 < 8 -> b < 256 ->
+  enc_dlsettings optneg rx2 rx1 = Ok (spec_dlsettings optneg rx2 rx1) /\
+  dec_dlsettings b = (f2b (nth 2 (unpack L_DLSettings b) 0), nth 0 (unpack L_DLSettings b) 0, nth 1 (unpack L_DLSettings b) 0).
+Proof. intros o a c b H1 H2 H3. split; [exact (dlsettings_is_spec o a c H1 H2)|exact (dlsettings_decode_is_spec b H3)]. Qed.
+Print Assumptions C06_dlsettings.
+
+(* join-request, rejoin-request 0/2 and 1, join-accept (12-byte form): little-endian
+   concatenation of the specified fields, identifiers byte-reversed *)
+Theorem C06_joinrequest : forall je de dn,
+  length je = 8%nat -> length de = 8%nat -> Forall (fun b => b < 256) je -> Forall (fun b => b < 256) de -> dn < 65536 ->
+  payload_marshal (PLJoinRequest je de dn) = Ok (spec_encode L_JoinRequest [id_val je; id_val de; dn]).
+Proof. exact joinrequest_is_spec. Qed.
+Print Assumptions C06_joinrequest.
+
+Theorem C06_rejoin02 : forall ty nid de rc,
+  (ty = 0 \/ ty = 2) -> length nid = 3%nat -> length de = 8%nat ->
+  Forall (fun b => b < 256) nid -> Forall (fun b => b < 256) de -> rc < 65536 ->
+  payload_marshal (PLRejoin02 ty nid de rc) = Ok (spec_encode L_Rejoin02 [ty; id_val nid; id_val de; rc]).
+Proof. exact rejoin02_is_spec. Qed.
+Print Assumptions C06_rejoin02.
+
+Theorem C06_rejoin1 : forall je de rc,
+  length je = 8%nat -> length de = 8%nat ->
+  Forall (fun b => b < 256) je -> Forall (fun b => b < 256) de -> rc < 65536 ->
+  payload_marshal (PLRejoin1 1 je de rc) = Ok (spec_encode L_Rejoin1 [1; id_val je; id_val de; rc]).
+Proof. exact rejoin1_is_spec. Qed.
+Print Assumptions C06_rejoin1.
+
+Theorem C06_joinaccept : forall jn nid da optneg rx2 rx1 rxd,
+  jn < 2 ^ 24 -> length nid = 3%nat -> length da = 4%nat ->
+  Forall (fun b => b < 256) nid -> Forall (fun b => b < 256) da -> rx2 < 16 -> rx1 < 8 -> rxd < 16 ->
+  payload_marshal (PLJoinAccept jn nid da optneg rx2 rx1 rxd None) =
+  Ok (spec_encode L_JoinAccept [jn; id_val nid; id_val da; spec_dlsettings optneg rx2 rx1; rxd]).
+Proof. exact joinaccept_is_spec. Qed.
+Print Assumptions C06_joinaccept.
+(* CFList (both kinds) and the FHDR concatenation are compared with their layouts on every
+   generated case by the correspondence run (Frame/WireSpec.v frame_spec_bytes); their decode
+   direction is part of C01_roundtrip / C08_canonical. *)
 
 (* non-vacuity: an in-range LinkADRReq meets the hypotheses and has the expected bytes *)
 Example C06_example :
